@@ -30,6 +30,9 @@ TEX_SPECIALS = set('\\{}$#%&_^~')
 TRACKED = sorted(HTML_SPECIALS | TEX_SPECIALS | set(' a\n[]|*-/:@+=?.é`{}'))
 
 
+LEN_AFFINE = [False]      # when set (by a rule, for the duration of one simulation) lengths of document text are affine symbols
+
+
 class Taint(AbstractValue):
     LOSSY = ('strip', 'lstrip', 'rstrip', 'lower', 'upper', 'casefold', 'replace', 'translate', 'expandtabs', 're.sub')
 
@@ -105,6 +108,9 @@ class Taint(AbstractValue):
         return self.clone()
 
     def abs_len(self, interp):
+        if LEN_AFFINE[0]:
+            from .affine import Aff
+            return Aff.sym('len(%s)' % self.label)
         return AbsInt(('len', self.prov))
 
     def abs_truth(self, interp):
@@ -303,6 +309,22 @@ class Skel(AbstractValue):
         return False if other is None else self is other
 
     def abs_len(self, interp):
+        if LEN_AFFINE[0]:
+            # symbolic length: constants plus one symbol per document value (used where lengths are added up)
+            from .affine import Aff
+            total = Aff({}, 0)
+            for p_ in self.parts:
+                if isinstance(p_, str):
+                    total = total.add(Aff({}, len(p_)))
+                else:
+                    l = p_.value.abs_len(interp) if hasattr(p_.value, 'abs_len') else None
+                    l = Aff.lift(l) if l is not None else None
+                    if l is None:
+                        total = None
+                        break
+                    total = total.add(l)
+            if total is not None:
+                return total
         # the length of a piece of output text, identified by the document values it is made of
         labs = []
         for p_ in self.parts:
